@@ -2,9 +2,9 @@
 (* Total trace specification for C33, used in two passes over the same event
    list (Header.compile):
    compile: the pen state is threaded by Draw!Run alone; for every draw event
-            the model's segments and final position are written out (as the
-            "clause" of the verdict list) - the harness renders these segments
-            with LINE statements as the reference picture;
+            the model's segments and final position are printed (one SEGS line
+            per event) - the harness renders these segments with LINE
+            statements as the reference picture;
    judge:   every draw event carries the observations of the real interpreter
             and gets a verdict.
    Events:
@@ -43,7 +43,8 @@ Step1(e) ==
            LET r == Run(st, e.cmds)
            IN  IF Compile
                THEN /\ st' = r.st
-                    /\ viol' = Append(viol, <<l, [segs |-> r.segs, pos |-> r.st.pos]>>)
+                    /\ viol' = viol
+                    /\ PrintT(<<"SEGS", ToJson([i |-> l, segs |-> r.segs, pos |-> r.st.pos])>>)
                ELSE LET v == Judge(e, r)
                     IN  /\ st' = IF e.ok /\ e.kind # "internal" THEN [r.st EXCEPT !.pos = <<e.p0, e.p1>>] ELSE st
                         /\ viol' = IF v = "ok" THEN viol ELSE Append(viol, <<l, v>>)
